@@ -179,8 +179,10 @@ def judge(inp, obs, expect, clauses):
             continue
         if "Min" in clauses:
             for m, cost in zip(sols, costs):
-                if cost != mn:
-                    yield algo, "Min", f"{algo}: returned cost {cost}, minimum over all valid reconciliations {mn}"
+                true = ranked.get(m, cost)   # cost of the returned mapping under the event model
+                if cost != mn or true != mn:
+                    yield algo, "Min", (f"{algo}: returned mapping {m} costs {true} (reported {cost}), minimum over "
+                                        f"all valid reconciliations {mn}")
                     break
         if algo.endswith("_all") and "AllExact" in clauses:
             if len(sols) != len(set(sols)):
